@@ -22,7 +22,8 @@ def gen_ext(rng, wavs):
     xs = sorted(set([lo, hi] + [rng.logdyadic(lo, hi, 12) for _ in range(n - 2)]))
     chi = [rng.logdyadic(1.0, 1e4, 12) * (x ** -1.2) for x in xs]
     chi = [float(Fraction(c).limit_denominator(1 << 20)) for c in chi]
-    return dict(wav=xs, chi=chi)
+    # the unit the law's wavelength column is tabulated in (the values below stay in micron; make_extinction converts)
+    return dict(wav=xs, chi=chi, unit=rng.choice(['micron', 'micron', 'micron', 'cm', 'nm', 'Angstrom']))
 
 
 def gen_source(rng, nb, flags=None, hostile=False, min_fitted=2):
@@ -141,7 +142,7 @@ def make_extinction(ext):
     from astropy import units as u
     from sedfitter.extinction import Extinction
     e = Extinction()
-    e.wav = np.array(ext['wav'], dtype=float) * u.micron
+    e.wav = (np.array(ext['wav'], dtype=float) * u.micron).to(u.Unit(ext.get('unit', 'micron')))
     e.chi = np.array(ext['chi'], dtype=float) * u.cm ** 2 / u.g
     return e
 
